@@ -25,6 +25,8 @@ def _polygon(draw, pmin=1, pmax=8):
         w = draw(gen.weights(p + 1, force="varied"))
         pts = [[c * wi for c in q[:-1]] + [wi] for q, wi in zip(pts, w)]
     rows = draw(st.sampled_from([0, 0, 1, 2, 3, 5]))
+    if not homog and draw(st.integers(0, 4)) == 0:
+        pts = [[int(c * 8) for c in q] for q in pts]          # integer coordinates are control points too
     return {"p": p, "pts": pts, "homog": homog, "rows": rows, "dim": dim}
 
 
@@ -48,6 +50,7 @@ def check_elevate(case, ctx):
     ctx.nt(t >= 2, "count>=2")
     ctx.nt(case["homog"], "homogeneous")
     ctx.nt(rows > 0, "rows")
+    ctx.label("integer-coordinates", isinstance(pts[0][0], int))
     out = helpers.degree_elevation(p, cp, num=t)
     ctx.check(len(out) == p + t + 1, "elevated-count", "degree_elevation(%d, num=%d) returned %d control points" % (p, t, len(out)))
     for j in range(max(rows, 1)):
